@@ -27,7 +27,8 @@
 //!   v2-claim-has-no-format   claim v2 has no format field: reported format may be absent
 //!   num-float-int            5.0 (CBOR float) == 5 (JSON int) numerically
 //!   ingredient-format-mime   an extension given as ingredient format may be reported as its MIME type
-//!   vendor-label-prefix      `vendor` prefixes the manifest label
+//!   vendor-in-manifest-label `vendor` becomes a component of the manifest label
+//!   json-report-u8-array-as-base64  Reader::json() shows arrays of integers 0..=255 as base64 (lossless)
 use c2pa::Reader;
 use serde_json::{json, Map, Value};
 use std::collections::BTreeMap;
@@ -503,6 +504,45 @@ fn judge_manifest(c: &Case, env: &Env, m: &Value, store_manifests: &Map<String, 
     out
 }
 
+/// Compares the typed manifest (`active_manifest()` serialised by serde) with the same manifest inside
+/// `Reader::json()`.  An array of numbers that shows up as a base64 string is the report's byte-array
+/// display rule: lossless (all elements integers 0..=255) -> counted as a rule; anything else -> lossy.
+fn json_channel_diff(typed: &Value, js: &Value, path: &str, rules: &mut BTreeMap<String, u64>, lossy: &mut Vec<String>, other: &mut Vec<String>) {
+    match (typed, js) {
+        (Value::Array(a), Value::String(s)) if !a.is_empty() && a.iter().all(|x| x.is_number()) => {
+            let ok = a.iter().all(|x| x.as_u64().map(|n| n <= 255).unwrap_or(false));
+            if ok {
+                rule(rules, "json-report-u8-array-as-base64");
+            } else {
+                lossy.push(format!("{path}: {} shown as \"{s}\"", short(typed)));
+            }
+        }
+        (Value::Object(x), Value::Object(y)) => {
+            for (k, v) in x {
+                match y.get(k) {
+                    Some(w) => json_channel_diff(v, w, &format!("{path}/{k}"), rules, lossy, other),
+                    None => other.push(format!("{path}/{k}: only in active_manifest()")),
+                }
+            }
+            for k in y.keys() {
+                if !x.contains_key(k) {
+                    other.push(format!("{path}/{k}: only in json()"));
+                }
+            }
+        }
+        (Value::Array(x), Value::Array(y)) if x.len() == y.len() => {
+            for (i, (v, w)) in x.iter().zip(y.iter()).enumerate() {
+                json_channel_diff(v, w, &format!("{path}[{i}]"), rules, lossy, other);
+            }
+        }
+        (a, b) => {
+            if a != b {
+                other.push(format!("{path}: {} vs {}", short(a), short(b)));
+            }
+        }
+    }
+}
+
 fn run_case(c: &Case, env: &Env, dump: bool) -> Res {
     let mut res = Res::default();
     let d = &c.def;
@@ -516,15 +556,24 @@ fn run_case(c: &Case, env: &Env, dump: bool) -> Res {
         return res;
     };
     let nonascii_tail = d.assertions.iter().any(|a| defgen::label_has_nonascii_tail(&a.label) || defgen::label_has_nonascii_tail(a.label.trim_end_matches(|ch: char| ch.is_ascii_digit()).trim_end_matches(".v")));
+    // signature = stage | defect | cause class (a property of the input that explains the defect, never
+    // the swept configuration: one defect must not fan out over algs/modes/versions)
     let hint = |stage: &str, defect: &str| -> String {
-        let cause = if nonascii_tail && defect.starts_with("panic") { "nonascii-label-tail".to_string() } else { format!("v{claim_v}|{}", c.cfg.mode) };
+        let cause = if nonascii_tail && defect.starts_with("panic") {
+            "nonascii-label-tail".to_string()
+        } else if defect.contains("state:") || defect.starts_with("err:") {
+            format!("v{claim_v}")
+        } else {
+            "general".to_string()
+        };
         format!("{stage}|{defect}|{cause}")
     };
     let ctx = defgen::context(true, c.cfg.thumbs, c.cfg.compressed, &json!({"verify": {"remote_manifest_fetch": false}}));
     let mut b = match report::catch_sdk(|| d.build(ctx, &env.pool)) {
         Ok(Ok(b)) => b,
         Ok(Err(e)) => {
-            res.violation = Some((hint("build", &format!("err:{}", e.split(':').next().unwrap_or(""))), format!("building the definition failed: {e}")));
+            let sig = if e.contains("too large for i64") { "build|err|int-above-i64-max".to_string() } else { hint("build", &format!("err:{}", e.split(':').next().unwrap_or(""))) };
+            res.violation = Some((sig, format!("building the definition failed: {e}")));
             res.class = format!("{cfg_class}|build-error");
             return res;
         }
@@ -575,9 +624,9 @@ fn run_case(c: &Case, env: &Env, dump: bool) -> Res {
     let (st, ou) = (store.clone(), out.clone());
     let read = report::catch_sdk(move || {
         let r = if sidecar { Reader::from_context(rctx).with_manifest_data_and_stream(&st, &fmt, Cursor::new(ou)) } else { Reader::from_context(rctx).with_stream(&fmt, Cursor::new(ou)) };
-        r.map(|r| (r.json(), format!("{:?}", r.validation_state()), report::codes_of(&r), r.remote_url().map(|s| s.to_string()), r.is_embedded()))
+        r.map(|r| (r.json(), format!("{:?}", r.validation_state()), report::codes_of(&r), serde_json::to_value(r.active_manifest()).unwrap_or(Value::Null), r.is_embedded()))
     });
-    let (json_s, state, codes, remote, embedded) = match read {
+    let (json_s, state, codes, typed, embedded) = match read {
         Ok(Ok(x)) => x,
         Ok(Err(e)) => {
             let kind = report::err_kind(&e);
@@ -607,12 +656,24 @@ fn run_case(c: &Case, env: &Env, dump: bool) -> Res {
         res.class = format!("{cfg_class}|no-active");
         return res;
     };
-    let mut mism = judge_manifest(c, env, m, manifests, &mut res.rules, &mut res.unjudged);
+    // primary channel: the typed `Reader::active_manifest()`; secondary: the `Reader::json()` report
+    if !typed.is_object() {
+        res.violation = Some((hint("report", "no-active-manifest"), "active_manifest() is None".into()));
+        res.class = format!("{cfg_class}|no-active");
+        return res;
+    }
+    let mut mism = judge_manifest(c, env, &typed, manifests, &mut res.rules, &mut res.unjudged);
+    let mut json_lossy: Vec<String> = Vec::new();
+    let mut json_other: Vec<String> = Vec::new();
+    json_channel_diff(&typed, m, "", &mut res.rules, &mut json_lossy, &mut json_other);
     // ---- delivery mode facts
     match c.cfg.mode.as_str() {
         "remote+embedded" => {
-            if remote.as_deref() != Some("https://verif.invalid/manifests/m.c2pa") || !embedded {
-                mism.push(("remote-url".into(), format!("remote url reported {:?}, embedded {embedded}", remote)));
+            let url = b"https://verif.invalid/manifests/m.c2pa";
+            let found = out.windows(url.len()).any(|w| w == url);
+            rule(&mut res.rules, if found { "observed:remote-url-in-output" } else { "observed:remote-url-not-found-verbatim" });
+            if !embedded {
+                mism.push(("embedded-flag".into(), "embedded manifest reported as not embedded".into()));
             }
         }
         "embedded" => {
@@ -659,13 +720,16 @@ fn run_case(c: &Case, env: &Env, dump: bool) -> Res {
         }
     }
     if dump {
-        res.dump = Some(format!("CASE cfg={:?}\n def={}\n api={:?}\n actions(api={})={:?}\n ingredients={:?} intent={:?}\n state={state} failures={:?}\n manifest={}\n mismatches={:?}\n rules={:?}\n", c.cfg, d.definition_json(), d.assertions.iter().filter(|a| a.via == defgen::Via::Api).map(|a| (&a.label, a.json_kind, short(&a.data))).collect::<Vec<_>>(), d.actions_via_api, d.actions, d.ingredients, d.intent, failures, serde_json::to_string_pretty(m).unwrap_or_default(), mism, res.rules));
+        res.dump = Some(format!("CASE cfg={:?}\n def={}\n api={:?}\n actions(api={})={:?}\n ingredients={:?} intent={:?}\n state={state} failures={:?}\n manifest={}\n mismatches={:?}\n rules={:?}\n", c.cfg, d.definition_json(), d.assertions.iter().filter(|a| a.via == defgen::Via::Api).map(|a| (&a.label, a.json_kind, short(&a.data))).collect::<Vec<_>>(), d.actions_via_api, d.actions, d.ingredients, d.intent, failures, serde_json::to_string_pretty(&typed).unwrap_or_default(), mism, res.rules));
     }
-    res.class = format!("{cfg_class}|{}|{}", d.shape(), if mism.is_empty() { "held" } else { "mismatch" });
-    if let Some((field, detail)) = mism.first() {
+    res.class = format!("{cfg_class}|{}|{}", d.shape(), if !mism.is_empty() { "mismatch" } else if !json_lossy.is_empty() || !json_other.is_empty() { "json-report-differs" } else { "held" });
+    if let Some((field, _)) = mism.first() {
         let all: Vec<String> = mism.iter().map(|(f, d)| format!("[{f}] {d}")).collect();
         res.violation = Some((hint("report", &format!("field:{field}")), all.join(" ;; ")));
-        let _ = detail;
+    } else if let Some(first) = json_other.first() {
+        res.violation = Some(("json-report|differs-from-active_manifest|general".into(), format!("Reader::json() differs from active_manifest(): {first} (+{} more)", json_other.len() - 1)));
+    } else if let Some(first) = json_lossy.first() {
+        res.violation = Some(("json-report|numeric-array-rewritten-as-base64|element-outside-u8".into(), format!("Reader::json() rewrites a numeric array into a base64 string and loses values: {first} (+{} more)", json_lossy.len() - 1)));
     }
     res
 }
@@ -739,6 +803,20 @@ fn directed_cases(env: &Env) -> Vec<Case> {
         base("org.verif.ünï.v2", "nonascii-label-tail-versioned"),
         // control: non-ASCII in a middle component
         base("org.ünï.note", "nonascii-label-middle"),
+        // a versioned custom label
+        base("org.verif.versioned.v3", "label-version-suffix"),
+        // integer above i64::MAX in assertion data
+        {
+            let mut c = base("org.verif.bigint", "int-above-i64-max");
+            c.def.assertions[0].data = json!({"big": u64::MAX});
+            c
+        },
+        // numeric arrays whose elements do not fit a byte / are not integers
+        {
+            let mut c = base("org.verif.arrays", "numeric-arrays");
+            c.def.assertions[0].data = json!({"bytes": [1, 2, 3], "wide": [256, 65535], "neg": [-1, 5], "floats": [0.5, 1.5]});
+            c
+        },
     ]
 }
 
